@@ -181,6 +181,8 @@ def eval_unit(part, lib, patt, shm, cfg, warm=None):
     base = {"patt": list(patt), "shading": sorted(shading), "N": cfg["N"]}
     if cfg.get("local"):
         base["local"] = cfg["local"]
+    if cfg.get("ref_first"):
+        base["scale"] = True
     if warm is not None:
         base["warm"] = warm
 
@@ -198,7 +200,39 @@ def eval_unit(part, lib, patt, shm, cfg, warm=None):
         viol("construct", {}, {"exception": repr(exc)})
         return
     sound_cache = {}
-    if cfg.get("local"):
+    if cfg.get("ref_first"):
+        # scale family: a licence that the shading lemmas themselves (re-stated on the box grid,
+        # polynomial) grant is sound by the theorem; only a licence they do NOT grant is searched
+        # for a containment witness among the extensions of the pattern by <= cfg["local"] points
+        sem = None
+        base_set = None
+        lazy = []
+
+        def unsound(cm):
+            r = sound_cache.get(cm, 0)
+            if r != 0:
+                return r
+            cs = X.cells_of(k, cm)
+            if len(cs) == 1:
+                ok = X.ref_lemma_points(patt, shading, cs[0]) or cs[0] in shading
+            elif len(cs) == 2:
+                ok = X.ref_simul_points(patt, shading, cs[0], cs[1])
+            else:
+                ok = False
+            if ok:
+                r = None
+            else:
+                part.bump("scale_licences_beyond_the_lemmas")
+                if not lazy:
+                    lazy.append(local_sem_of(patt, cfg["local"]))
+                r = lazy[0].lost(shm, cm)
+                if r is None:
+                    part.bump("scale_licences_beyond_the_lemmas_unrefuted")
+                else:
+                    r = list(r)
+            sound_cache[cm] = r
+            return r
+    elif cfg.get("local"):
         # long patterns: texts = all extensions of the pattern by <= cfg["local"] points
         sem = local_sem_of(patt, cfg["local"])
         base_set, forced = sem.analyse(shm)
@@ -232,7 +266,7 @@ def eval_unit(part, lib, patt, shm, cfg, warm=None):
     if "lemma1" in subs or need_queries:
         report = "lemma1" in subs
         lemma_cells = cells
-        if cfg.get("cells") == "point-adjacent" and not need_queries:
+        if cfg.get("cells") == "point-adjacent" and (not need_queries or cfg.get("queries") == "point"):
             lemma_cells = sorted(X.ref_non_pointless(patt))
         for c in lemma_cells:
             try:
@@ -242,6 +276,10 @@ def eval_unit(part, lib, patt, shm, cfg, warm=None):
                     viol("lemma1", {"cell": c}, {"exception": repr(exc)})
                 continue
             single[c] = got
+            if cfg.get("validate_ref") and X.ref_lemma_points(patt, shading, c):
+                part.bump("reference_lemma_licences_validated")
+                assert unsound(X.cbit(k, c)) is None, ("HARNESS: reference shading lemma unsound",
+                                                        patt, sorted(shading), c)
             if not report:
                 continue
             if not _is_int_list(got):
@@ -255,7 +293,7 @@ def eval_unit(part, lib, patt, shm, cfg, warm=None):
             if got:
                 part.bump("lemma1_positive")
                 w = unsound(X.cbit(k, c))
-                if w is None and k >= 1 and shading:
+                if w is None and k >= 1 and shading and base_set is not None:
                     part.sample({"pattern": patt, "shading": sorted(shading), "can_shade": c, "answer": got,
                                  "texts of S<=%d containing it, before = after shading" % cfg["N"]:
                                      bin(base_set).count("1")}, cap=1)
@@ -272,6 +310,10 @@ def eval_unit(part, lib, patt, shm, cfg, warm=None):
                     if abs(a[0] - b[0]) + abs(a[1] - b[1]) == 1]
         if cfg["pairs"] == "all" and report:
             todo = [(a, b) for a in cells for b in cells]
+        elif cfg["pairs"] == "point-dominoes":
+            todo = list(X.point_dominoes(patt))            # lower-left cell first
+            if cfg.get("orders") == "both":
+                todo += [(b, a) for a, b in todo]
         else:
             todo = adjacent
         for (a, b) in todo:
@@ -282,6 +324,10 @@ def eval_unit(part, lib, patt, shm, cfg, warm=None):
                     viol("simul", {"cells": [a, b]}, {"exception": repr(exc)})
                 continue
             pairs[(a, b)] = got
+            if cfg.get("validate_ref") and a < b and X.ref_simul_points(patt, shading, a, b):
+                part.bump("reference_lemma_licences_validated")
+                assert unsound(X.cbit(k, a) | X.cbit(k, b)) is None, (
+                    "HARNESS: reference simultaneous shading lemma unsound", patt, sorted(shading), a, b)
             if not report:
                 continue
             if not _is_int_list(got):
@@ -346,7 +392,13 @@ def eval_unit(part, lib, patt, shm, cfg, warm=None):
                     if a < b:
                         exp_min.update((v, frozenset([a, b])) for v in got)
             have = {(key, frozenset(boxes)) for key, boxes in entries}
-            if not (exp_min <= have <= exp_max):
+            have_cmp = have
+            if cfg.get("queries") == "point":
+                # only cells / dominoes at pattern points were queried; entries elsewhere have no
+                # corner point and are reported as table_key above
+                queried = {frozenset([c]) for c in single} | {frozenset(ab) for ab in pairs}
+                have_cmp = {e for e in have if e[1] in queried}
+            if not (exp_min <= have and have_cmp <= exp_max):
                 viol("table_complete", {},
                      {"in table only": sorted((k_, sorted(b)) for k_, b in have - exp_max),
                       "reported by can_shade/can_simul_shade only":
@@ -562,6 +614,37 @@ def family(k, lo, hi, rowcol=True):
     return per_patt
 
 
+def scale_perms(n):
+    """Structured permutations of length n: identity, reverse, identity with the first / the last
+    adjacent transposition, cyclic shift, layered with layers of size 2, i -> k*i mod (n+1) for the
+    smallest k >= 2 coprime to n+1, 'middle value first, then decreasing'."""
+    import math
+    ident = tuple(range(n))
+    k = next(k for k in range(2, n + 1) if math.gcd(k, n + 1) == 1)
+    cands = [ident, ident[::-1], (1, 0) + ident[2:], ident[:-2] + (n - 1, n - 2), ident[1:] + (0,),
+             tuple((i ^ 1) if (i ^ 1) < n else i for i in range(n)),
+             tuple((k * (i + 1)) % (n + 1) - 1 for i in range(n)),
+             (n // 2,) + tuple(v for v in range(n - 1, -1, -1) if v != n // 2)]
+    out = []
+    for c in cands:
+        assert R.is_perm(c), c
+        if c not in out:
+            out.append(c)
+    return out
+
+
+def ring_pairs(n):
+    """Shadings {a, b}: a in the two outermost rings of the (n+1)x(n+1) grid, b any other box."""
+    cells = R.all_cells(n)
+    ring = [c for c in cells if min(c) <= 1 or max(c) >= n - 1]
+    out = set()
+    for a in ring:
+        for b in cells:
+            if a != b:
+                out.add(X.mask_of(n, (a, b)))
+    return by_size(out)
+
+
 def make_shards(per_patt, cfgname, per):
     shards = []
     for patt in sorted(per_patt, key=lambda q: (len(q), q)):
@@ -608,6 +691,9 @@ def run(ctx, only=None):
         "for patterns of length k = 5, 6 it is decided on the extensions of the pattern by <= 2 points "
         "(all of S<=k+2 that contain it): enough to refute a licence whenever one entry in the box plus "
         "one further entry elsewhere witnesses the loss; witnesses needing >= 3 extra entries are not seen",
+        "scale family (lengths 7-9): a licence is accepted without search when the shading lemma / "
+        "simultaneous shading lemma, re-stated on the box grid in mc/ref_c18.py, grant it (theorems; the "
+        "re-statement is itself validated against the containment oracle on every smaller universe)",
         "add_point on a shaded cell (documented assert) is outside the property and not called",
     ]
     build_tables(ctx, N, maxk)
@@ -618,11 +704,11 @@ def run(ctx, only=None):
 
     small = {patt: all_masks(len(patt)) for k in range(0, 3) for patt in R.perms(k)}
     CFG["mesh<=2"] = {"subs": subs, "pairs": "all", "cell_sizes": (1, 2, 3), "N": N, "maxk": maxk,
-                      "kw": True}
+                      "kw": True, "validate_ref": True}
     shards = make_shards(small, "mesh<=2", 8)
     fam3 = family(3, 2, 14)
     CFG["family3"] = {"subs": subs, "pairs": "adjacent" if quick else "all", "cell_sizes": (1, 2),
-                      "N": N, "maxk": maxk}
+                      "N": N, "maxk": maxk, "validate_ref": True}
     shards += make_shards(fam3, "family3", 16)
     bounds = {
         "texts": "S<=%d (%d permutations)" % (N, len(TEXTS)),
@@ -640,7 +726,8 @@ def run(ctx, only=None):
         if lem:
             done = {p_: set(v) for p_, v in fam3.items()}
             rest = {p_: [m for m in all_masks(3) if m not in done[p_]] for p_ in R.perms(3)}
-            CFG["all3"] = {"subs": lem, "pairs": "adjacent", "cell_sizes": (), "N": N, "maxk": maxk}
+            CFG["all3"] = {"subs": lem, "pairs": "adjacent", "cell_sizes": (), "N": N, "maxk": maxk,
+                           "validate_ref": True}
             shards += make_shards(rest, "all3", 512)
             bounds["all3"] = ("the remaining %d mesh patterns of length 3 (so ALL 6*2^16): can_shade on "
                               "all cells, can_simul_shade on both orders of all adjacent pairs" % sum(len(v) for v in rest.values()))
@@ -670,7 +757,7 @@ def run(ctx, only=None):
         m5 = by_size(sparse_dense(5, 1, 37))
         one5 = {p_: m5 for p_ in R.perms(5)}
         CFG["len5<=1"] = {"subs": lem3, "pairs": "adjacent", "cell_sizes": (), "N": 7, "maxk": maxk,
-                          "local": 2}
+                          "local": 2, "validate_ref": True}
         shards += make_shards(one5, "len5<=1", 37)
         bounds["len5<=1"] = ("all 120 x %d mesh patterns of length 5 with <= 1 shaded box: can_shade on all "
                              "36 cells, can_simul_shade on both orders of all adjacent pairs, "
@@ -697,6 +784,36 @@ def run(ctx, only=None):
                              "49 cells, can_simul_shade on adjacent pairs, shadable_boxes; soundness on "
                              "every extension by <= 2 points (= all of S<=8 containing it)"
                              % len(one6[(0, 1, 2, 3, 4, 5)]))
+    # "scale" family: lengths whose derived quantities cross thresholds of the runtime (a rank()
+    # of (n+1)^2 bits exceeds the 53-bit float mantissa from n = 7 on, 64 bits from n = 8 on;
+    # set members >= 8; ...), structured underlying permutations, every shading made of one box in
+    # the two outermost rings of the grid (first/last two columns or rows) and one arbitrary
+    # other box, plus every shading with <= 1 box
+    if lem3:
+        lengths = (7, 8) if quick else (7, 8, 9)
+        for n in lengths:
+            perms_n = scale_perms(n)
+            one = by_size(sparse_dense(n, 1, (n + 1) ** 2 + 1))
+            two = ring_pairs(n)
+            name1, name2 = "scale%d<=1" % n, "scale%d=2" % n
+            common = {"pairs": "point-dominoes", "orders": "both", "cell_sizes": (), "N": n + 2,
+                      "maxk": maxk, "local": 2, "ref_first": True, "queries": "point",
+                      "cells": "point-adjacent"}
+            CFG[name1] = dict(common, subs=lem3)
+            CFG[name2] = dict(common, subs=lem3 if not quick else frozenset(lem3 - {"table"}),
+                              orders="both" if not quick else "lower-first")
+            shards += make_shards({p_: one for p_ in perms_n}, name1, 41)
+            shards += make_shards({p_: two for p_ in perms_n}, name2, 237 if quick else 120)
+            bounds["scale%d" % n] = (
+                "length %d, %d structured permutations %s; shadings: all %d with <= 1 box (can_shade on "
+                "every cell at a pattern point, can_simul_shade on both orders of every domino with a "
+                "pattern point mid-side, shadable_boxes) and all %d made of one box in the two outermost "
+                "rings + one other box (%s); a licence granted by the shading lemmas re-stated on the "
+                "box grid is sound by the theorem, any other licence is searched for a containment "
+                "witness among all extensions of the pattern by <= 2 points (S<=%d)"
+                % (n, len(perms_n), [list(q) for q in perms_n], len(one), len(two),
+                   "same queries" if not quick else
+                   "can_shade, can_simul_shade lower-left cell first; no table", n + 2))
     ctx.bounds.update(bounds)
     e0 = ctx.evals
     ctx.pmap(shard_units, shards)
@@ -730,6 +847,9 @@ def replay(ctx, rec):
     cfg = {"subs": subs, "pairs": "all", "cell_sizes": (1, 2, 3), "N": N, "maxk": 5, "kw": True}
     if local:
         cfg.update(local=int(local), pairs="adjacent")
+    if case.get("scale"):
+        cfg.update(ref_first=True, queries="point", cells="point-adjacent", pairs="point-dominoes",
+                   orders="both")
     if sub in ("render",) and isinstance(case.get("cell_size"), int):
         cfg["cell_sizes"] = (case["cell_size"],)
     lib = Lib()
